@@ -147,7 +147,8 @@ def chain_strategy(min_len=1, max_len=4):
 def spelled_chain_strategy(min_len=1, max_len=4, bare=False, bare_after_half=False):
     """
     Draws {'chain': [...], 'spell': [[family, text], ...], 'joiners': [...], 'case': ...}.
-    bare: any quarter may be a bare two-letter quarter (clean_qq); bare_after_half: only a quarter that directly follows a half.
+    bare: any quarter may be a bare two-letter quarter (clean_qq); bare_after_half: only the quarters of an unbroken run of
+    bare quarters that directly follows a half ('N2NENW', 'N/2 of the NE of the NW').
     """
     @st.composite
     def build(draw):
@@ -155,20 +156,36 @@ def spelled_chain_strategy(min_len=1, max_len=4, bare=False, bare_after_half=Fal
         spell = []
         joiners = []
         for i, comp in enumerate(chain):
-            may_be_bare = bare or (bare_after_half and i > 0 and chain[i - 1] in HALVES)
+            in_run = i > 0 and (chain[i - 1] in HALVES or spell[i - 1][0] == "bareq")
+            may_be_bare = bare or (bare_after_half and in_run)
             fam, text = draw(st.sampled_from(spellings(comp, may_be_bare)))
             text = apply_case(text, draw(st.sampled_from(CASES)))
             spell.append([fam, text])
-            if fam == "bareq" and not bare and i >= 2 and joiners[i - 2] == "":
-                # the half in front of a bare quarter is recognised at a word boundary only: not glued to the component before it
-                joiners[i - 2] = " "
             if i < len(chain) - 1:
-                j = draw(st.sampled_from(JOINERS))
-                if j == "" and not text[-1] in "24½¼":
-                    j = " "
-                joiners.append(j)
+                joiners.append(draw(st.sampled_from(JOINERS)))
+        fix_joiners(chain, spell, joiners, bare)
         return {"chain": chain, "spell": spell, "joiners": joiners}
     return build()
+
+
+def glue_ok(spell, i):
+    """May component i be written directly against component i + 1?"""
+    fam, text = spell[i]
+    if text[-1] in "24½¼":
+        return True
+    # a bare quarter may be glued to another bare quarter ('N2NENW'), to nothing else
+    return fam == "bareq" and spell[i + 1][0] == "bareq"
+
+
+def fix_joiners(chain, spell, joiners, bare):
+    for i in range(len(joiners)):
+        if joiners[i] == "" and not glue_ok(spell, i):
+            joiners[i] = " "
+    if not bare:
+        # the half in front of a run of bare quarters is recognised at a word boundary only: not glued to the component before it
+        for i, (fam, _) in enumerate(spell):
+            if fam == "bareq" and i >= 2 and chain[i - 1] in HALVES and joiners[i - 2] == "":
+                joiners[i - 2] = " "
 
 
 def render_spelled(sc):
